@@ -52,8 +52,15 @@ func collect(e *Env, family string, n int, draw func(t *rapid.T) PkgSpec) []PkgS
 	return out
 }
 
+type droppedSpec struct {
+	Name, Why string
+	Raw       []byte
+	Cfg       inproc.Config
+}
+
 type buildStats struct {
 	Drawn, Rejected, Dropped, Kept int
+	DroppedSpecs                   []droppedSpec
 	DroppedWhy                     map[string]int
 }
 
@@ -143,6 +150,11 @@ func buildDriver(e *Env, specs []PkgSpec, race bool) (string, string, []PkgSpec,
 		default:
 			st.Dropped++
 			st.DroppedWhy[r.why]++
+			raw := specs[i].Raw
+			if raw == nil && specs[i].Doc != nil {
+				raw = specs[i].Doc.JSON()
+			}
+			st.DroppedSpecs = append(st.DroppedSpecs, droppedSpec{specs[i].Name, r.why, raw, specs[i].Cfg})
 		}
 	}
 	st.Kept = len(kept)
@@ -308,6 +320,20 @@ func compiledMain(e *Env, check string, specs []PkgSpec, race bool, timeout time
 	r, incon := runDriver(e, bin, root, check, timeout, extraEnv...)
 	r.Extra["programs"] = st.Kept
 	r.Extra["programs_detail"] = map[string]any{"drawn": st.Drawn, "rejected_by_goag": st.Rejected, "dropped_not_compiling": st.Dropped, "compiled": st.Kept, "dropped_why": st.DroppedWhy}
+	// the generators only draw specs for which goag is known to produce compilable code
+	// (D_core): a package that does not compile cannot satisfy the property either - no
+	// handler, client or codec of it can be used at all. (C18 reports its rewritten
+	// sides itself.)
+	if check != "C18" {
+		for _, ds := range st.DroppedSpecs {
+			if !strings.HasPrefix(ds.Why, "does not compile") {
+				continue
+			}
+			r.Fail(res.Failure{Property: check, Kind: "generated-package-does-not-compile:" + strings.Join(strings.Fields(strings.TrimPrefix(ds.Why, "does not compile:"))[:min(6, len(strings.Fields(strings.TrimPrefix(ds.Why, "does not compile:"))))], " "),
+				Clause: "generated-package-does-not-compile", Detail: fmt.Sprintf("goag reported success for spec %s but the package %s", ds.Name, ds.Why),
+				Replay: map[string]any{"openapi.json": string(ds.Raw), "config.json": cfgString(ds.Cfg)}})
+		}
+	}
 	if un := r.Labels["unmappable-package"]; un*20 > int64(st.Kept) {
 		incon = append(incon, fmt.Sprintf("harness could not map %d of %d packages", un, st.Kept))
 	}
